@@ -514,3 +514,23 @@ package inputrc
 //@   use decs_step(t)
 //@   use plain_step(t)
 //@   use clean_escs_bind(k)
+
+// C01: the default configuration exists and has its variable table (NewShell's invariant rests on it)
+//@ fntype ConfigOption
+//@   assumed option closures of this package only assign fields of the configuration they are given
+//@   requires p0 != nil
+//@   assigns p0.all
+//@ func DefaultVars
+//@   trusted a map literal
+//@   assigns nothing
+//@   ensures result != nil && fresh(result)
+//@ func DefaultBinds
+//@   trusted a map literal of map literals
+//@   assigns nothing
+//@   ensures result != nil && fresh(result)
+//@ func NewDefaultConfig
+//@   props C01
+//@   terminates
+//@   requires all(k, 0, len(opts), opts[k] != nil)
+//@   ensures [config-exists] result != nil && fresh(result) && result.Vars != nil
+//@   loop 1 invariant cfg != nil && fresh(cfg) && cfg.Vars != nil
